@@ -1683,8 +1683,9 @@ class Segment(Element):
 
     def add(self, obj):
         super(Segment, self).add(obj)
-        # updates the index of the last children not allowed
-        if obj.name and self.allow_infinite_children:
+        # updates the index of the last children not allowed (a temporary child created by a traversal is not
+        # a child yet: it is counted when it becomes an actual one)
+        if obj.name and self.allow_infinite_children and obj.parent is self:
             field_index = int(obj.name[4:])
             if field_index > self._last_child_index:
                 self._last_child_index = field_index
